@@ -84,4 +84,9 @@ def run(R):
     while not R.out_of_time() and i < (150 if R.tier == 'quick' else 2500):
         i += 1
         case(E.random_cfg(rnd, nv=rnd.randint(1, 4), max_rules=3, max_rhs=rnd.choice([2, 3, 4])), 'r%d' % i)
+    i = 0
+    while not R.out_of_time() and i < (60 if R.tier == 'quick' else 1000):       # unit-rule-rich grammars (unit cycles through the start variable, several unit alternatives)
+        i += 1
+        case(E.random_unit_cfg(rnd), 'u%d' % i)
+    R.bounds['cfg-unit'] = 'seeded random grammars (2-4 variables) in which every variable has 1-3 unit alternatives in random order next to terminal / binary alternatives'
     R.bounds['cfg'] = 'a fifth of (thorough: all) grammars with variables S,A over {a}, 2 rules, rhs <=2; hand-written grammars (unit cycles of length 3, > 26 variables, unreachable long rules, character-class variables); seeded random grammars (<=4 variables, <=3 rules each, rhs <=4, nullable / unit / cyclic rules). Languages compared on all words of length <= %d with an independent derivability procedure; each phase alone and the pipeline cumulatively' % N
